@@ -286,6 +286,9 @@ func (e *executor) codec(t []string) (string, bool) {
 		m.Reset()
 		e.stale[atoi(t[1])] = false
 		return e.dumpS(atoi(t[1])), true
+	case t[0] == "SETLEN" && len(t) == 3: // the struct's Length field (a uint32) set directly, as a caller may
+		e.msgs[atoi(t[1])].Length = uint32(atoi(t[2]))
+		return "ok", true
 	case t[0] == "WHDR" && len(t) == 2:
 		m := e.msgs[atoi(t[1])]
 		m.WriteHeader()
@@ -381,6 +384,9 @@ func (e *executor) codec(t []string) (string, bool) {
 		return fmt.Sprintf("failed=%v seen=%s A=%s", err != nil, s, showAttrs(m.Attributes)), true
 	case t[0] == "TYPEVAL" && len(t) == 3:
 		mt := stun.MessageType{Method: stun.Method(atoi(t[1])), Class: stun.MessageClass(atoi(t[2]))}
+		if (atoi(t[1])+atoi(t[2]))%2 == 0 { // the constructor is a plain pair: every other value goes through it
+			mt = stun.NewType(stun.Method(atoi(t[1])), stun.MessageClass(atoi(t[2])))
+		}
 		return strconv.Itoa(int(mt.Value())), true
 	case t[0] == "READVAL" && len(t) == 2:
 		var mt stun.MessageType
